@@ -1,0 +1,11 @@
+//go:build verif
+
+package commit
+
+import "sync/atomic"
+
+// SimSetID sets the process-wide commit id counter (normally seeded from the wall clock)
+// so that simulated runs produce reproducible ids. Build tag "verif" only.
+func SimSetID(v uint64) {
+	atomic.StoreUint64(&id, v)
+}
